@@ -56,6 +56,20 @@ JOBS = [
         ('rest', r'^(?!.*(\.assigns\.|\.pointer_dereference\.|\.array_bounds\.|\.assertion\.|\.postcondition\.))(?!carquet_lz4_compress\.\d+ )', 0),
     ]
 ] + [
+    # C10: parse-back of what the compressor stores (token nibbles, length-extension bytes, offset bytes), content
+    # level.  Variant of the same job with -DCQV_LZ4_PARSEBACK (content clauses in the inner-loop invariants, one
+    # arbitrary destination byte preserved across the memcpy model); its obligations are sliced like the base variant.
+] + [
+    dict(name='c10_lz4_compress_parseback_' + nm, props=['C10'], entry='h_lz4_compress', enforce='carquet_lz4_compress',
+         replace=['lz4_count'] + LEMMAS, unwindset=UW, min_loop_obligations=mlo, defines=['CQV_LZ4_PARSEBACK=1'],
+         select=sel, timeout=5400, mem_gb=12, backend='cadical', cbmc_flags=['--slice-formula'],
+         replayer=FZ_C, wip=True, tier='thorough', **L9)
+    for nm, sel, mlo in [
+        ('asserts', r'\.assertion\.', 0),
+        ('invariants', r'^carquet_lz4_compress\.\d+ ', 4),
+        ('other', r'^(?!.*\.assertion\.)(?!carquet_lz4_compress\.\d+ )', 0),
+    ]
+] + [
     # C10 decoder direction, bounded by complete unwinding on small blocks (no loop contracts applied)
     dict(name='c10_lz4_decoder_accepts_valid', prop='C10', entry='h_lz4_decompress_accepts_every_valid',
          loop_contracts=False, unwind=9, defines=['CQV_N=4', 'CQV_CAP=8'], level='bounded',
